@@ -209,19 +209,21 @@ func validInputSize(min, max int, tv reflect.Value, isHasEqual ...bool) (isLessT
 	case reflect.Uint, reflect.Uint8, reflect.Uint16, reflect.Uint32, reflect.Uint64:
 		val := tv.Uint()
 		valStr = ToStr(val)
+		// 注: 边界可能为负数, 不能直接转为 uint64 再比较
+		cmpMin, cmpMax := cmpUintWithInt(val, min), cmpUintWithInt(val, max)
 		if hasEqual {
-			if val < uint64(min) {
+			if cmpMin < 0 {
 				isLessThan = true
 			}
-			if val > uint64(max) {
+			if cmpMax > 0 {
 				isMoreThan = true
 			}
 			return
 		}
-		if val < uint64(min) {
+		if cmpMin <= 0 {
 			isLessThan = true
 		}
-		if val > uint64(max) {
+		if cmpMax >= 0 {
 			isMoreThan = true
 		}
 	case reflect.Slice:
@@ -237,14 +239,26 @@ func validInputSize(min, max int, tv reflect.Value, isHasEqual ...bool) (isLessT
 			}
 			return
 		}
-		if l < min {
+		if l <= min {
 			isLessThan = true
 		}
-		if l > max {
+		if l >= max {
 			isMoreThan = true
 		}
 	}
 	return
+}
+
+// cmpUintWithInt 无符号数与 int 边界比较, 小于返回 -1, 等于返回 0, 大于返回 1
+// 注: 负数边界小于任何无符号数
+func cmpUintWithInt(val uint64, bound int) int {
+	if bound < 0 || val > uint64(bound) {
+		return 1
+	}
+	if val < uint64(bound) {
+		return -1
+	}
+	return 0
 }
 
 // parseTagTo 解析 validName: to/oto 中 min, max
